@@ -28,7 +28,7 @@ notes = {
 notes.update({
  "C01-r2": ("consumer VerifC01ConsumerApply (engine receives a removal of a validator it never had)", "caught as built"),
  "C02-r2": ("VerifC02ListUpdate (C02.lists.index-holds-exactly-the-latest-list)", "missed by the first version (list updates through SetConsumerPowerShapingParameters were not exercised); harness added, run by C02 and C04"),
- "C03-r2": ("VerifC03MinPower (C03.minpower.set-holds-N-percent)", "caught as built"),
+ "C03-r2": ("VerifC03MinPower (C03.minpower.set-holds-N-percent)", "caught as built; the patch was rebased onto the F2 repair (same rounding, applied to the exact comparison), the sub-agent's original is kept as patch.orig.diff"),
  "C04-r2": ("VerifC02ListUpdate (priority-list index stale after an update differing only in the first entry)", "caught by the harness added for C02-r2"),
  "C05-r2": ("VerifC05ValidatorRemoved (C05.removed.assignment-record-of-removed-validator-deleted)", "no harness for the validator-removal hook existed; added while the seed was being written (predicted from the patch), then confirmed"),
  "C06-r2": ("VerifC06Prune (C06.prune.other-consumers-entries-kept)", "the pruning harness had a single consumer; a second consumer whose keys sort first was added (predicted from the patch), then confirmed"),
@@ -38,6 +38,13 @@ notes.update({
  "C10-r2": ("VerifC10UpdatePhase (C10.inv.initialized-scheduled-exactly-once-at-its-spawn-time)", "caught as built"),
  "C12-r2": ("consumer VerifC08ConsumerReports (C12.consumer.slash-packet-carries-id-of-infraction-height)", "caught as built"),
  "C13-r2": ("VerifC16AllocateLoop (C16.loop.unregistered-denom-never-paid)", "the harness caught it under check C16; C13 now runs it too"),
+ "C11-r2": ("VerifC11RemoveBatch (C11.batch.every-due-stopped-consumer-is-deleted)", "the deletion harness had a single queue entry; a batch harness with failing entries at any position was added (predicted from the patch), then confirmed"),
+ "C15-r2": ("VerifC15Genesis (C15.genesis.recorded-set-is-top-M-by-staking-order)", "no genesis harness existed; added (predicted from the patch), then confirmed"),
+ "C20-r2": ("VerifC20UpdateQueued (request equal to the values in force must cancel the pending change)", "caught as built"),
+ "C16-r2": ("VerifC16AllocateLoop (C16.loop.unregistered-denom-never-paid)", "caught as built"),
+ "C17-r2": ("VerifC17LaunchBinding op=1 (C17.launch-on-connection-preserves-one-to-one-bindings)", "caught as built (holders of a client are now explicitly launched or stopped)"),
+ "C18-r2": ("VerifC18MapOrder (DiffValidators output depends on the map order)", "caught as built"),
+ "C19-r2": ("VerifC19AllocateRollback (C19.alloc.pool-falls-by-exactly-what-the-credit-fell)", "the bank / distribution stubs were plain Go state that no cache context rolls back, so a shared cache across denoms was invisible; store-backed stubs and a two-denom harness were added (predicted from the patch), then confirmed"),
  "C14-r2": ("VerifC05AssignStep (C05.assign.rejected-iff-rule-applies)", "the harness caught it under check C05; C14 now runs it too"),
 })
 
